@@ -19,10 +19,24 @@ using namespace vf;
 namespace {
 volatile int gFillEnabled = 0;
 volatile unsigned char gFill = 0xA5;
+volatile long gFailCountdown = -1;  // >= 0: that many allocations still succeed, the next one throws std::bad_alloc (once)
+void armFailure(long k)
+{
+    gFailCountdown = k;
+}
 }  // namespace
 
 void* operator new(std::size_t n)
 {
+    if (gFailCountdown >= 0)
+    {
+        if (gFailCountdown == 0)
+        {
+            gFailCountdown = -1;
+            throw std::bad_alloc();
+        }
+        gFailCountdown = gFailCountdown - 1;
+    }
     void* p = malloc(n ? n : 1);
     if (!p)
         throw std::bad_alloc();
@@ -120,6 +134,7 @@ uint64_t gFold = 0x20;
 // is used before it has been constructed is state that has not been initialised yet.
 uint64_t fixedWorkloadDigest()
 {
+    wl::armAllocationFailure() = armFailure;  // (set here as well: this runs before main())
     wl::State st;
     wl::DigestSink s;
     Rng r(0x20C0FFEEULL);
@@ -207,6 +222,7 @@ long countCases(Ctx& c)
 int main(int argc, char** argv)
 {
     // self-test of the monitors (development aid): VF_SELFTEST_UNINIT=1 emits a deliberately uninitialised heap byte
+    wl::armAllocationFailure() = armFailure;
     int rc = driverMain(argc, argv, countCases, [](Ctx& c, long idx) {
         caseFn(c, idx);
         if (getenv("VF_SELFTEST_UNINIT") && idx < 16)
